@@ -2022,14 +2022,16 @@ func (c *Ctx) r0918(pk *packages.Package) {
 
 // R09.20: no string literal is printed with a live `</script`.
 func (c *Ctx) r0920(pk *packages.Package, rule string) {
-	c.R.Rule(rule, "inside an HTML script element the text `</script` — in any case, followed by white space, `/` or `>` — ends the element, so a JavaScript string must never be printed with it. Authors write `<\\/script>` or `\\x3C/script>`; js.replaceEscapes, which strips unnecessary escapes and decodes `\\x..` / `\\u....`, has to leave those alone and to add the backslash where it is missing. In replaceEscapes (and the helpers it calls) (a) the end tag is recognised by a case-folding comparison of the six letters `script` (bytes.EqualFold / parse.EqualFold), not by comparing with a longer fixed string such as `/script>` — `<\\/script >` and `<\\/SCRIPT>` lost their backslash; (b) the branches that decode a `\\x` and a `\\u` escape each consult that recogniser, so that an escape that would produce the `<` of `</script` stays an escape")
+	c.R.Rule(rule, "inside an HTML script element the text `</script` — in any case, followed by white space, `/` or `>` — ends the element, so a JavaScript string must never be printed with it. Authors write `<\\/script>` or `\\x3C/script>`; js.replaceEscapes, which strips unnecessary escapes and decodes `\\x..` / `\\u....`, has to leave those alone and to add the backslash where it is missing. In replaceEscapes (and the helpers it calls) (a) the end tag is recognised by a case-folding comparison of the six letters `script` (bytes.EqualFold / parse.EqualFold), not by comparing with a longer fixed string such as `/script>` — `<\\/script >` and `<\\/SCRIPT>` lost their backslash; (b) the branches that decode a `\\x`, a `\\u` and a legacy octal escape each consult that recogniser, so that an escape that would produce the `<` of `</script` stays an escape; (d) what the decoding branches consult also recognises `!--`: after `<!--` a `<script` makes the HTML tokenizer skip the next `</script>`; (c) minifyRegExp, which strips unnecessary backslashes from regular expression literals, consults it too (`[<\\/script>]`)")
 	info := pk.TypesInfo
 	fd := c.fn(rule, pk, "replaceEscapes")
 	if fd == nil {
 		return
 	}
 	// recognisers: functions of the package whose body folds case over the constant "script"
-	isRecogniser := func(d *ast.FuncDecl) bool {
+	var isRecogniserD func(d *ast.FuncDecl, depth int) bool
+	isRecogniser := func(d *ast.FuncDecl) bool { return isRecogniserD(d, 0) }
+	isRecogniserD = func(d *ast.FuncDecl, depth int) bool {
 		if d == nil || d.Body == nil {
 			return false
 		}
@@ -2040,6 +2042,9 @@ func (c *Ctx) r0920(pk *packages.Package, rule string) {
 				return true
 			}
 			cn := calleeName(info, ce)
+			if fo, _ := callee(info, ce).(*types.Func); fo != nil && fo.Pkg() == pk.Types && depth < 2 && isRecogniserD(load.Func(pk, fo.Name()), depth+1) {
+				hit = true // a wrapper of the recogniser
+			}
 			if (cn == "bytes.EqualFold" || cn == load.ParseMod+".EqualFold") && len(ce.Args) == 2 {
 				for _, a := range ce.Args {
 					if conv, ok := ast.Unparen(a).(*ast.CallExpr); ok && len(conv.Args) == 1 {
@@ -2089,7 +2094,7 @@ func (c *Ctx) r0920(pk *packages.Package, rule string) {
 		c.R.Check(rec, rule, "js.replaceEscapes/end tag recognised whatever its case and tail#1", c.pos(fd), "through a case-folding comparison of `script`", "replaceEscapes does not look for `</script` at all: an unnecessary escape `<\\/script>` is stripped and the string ends the script element")
 	}
 	// (b) the decoding branches
-	for _, br := range []struct{ lit, name string }{{"'x'", "\\x"}, {"'u'", "\\u"}} {
+	for _, br := range []struct{ lit, name string }{{"'x'", "\\x"}, {"'u'", "\\u"}, {"'0'", "octal"}} {
 		var branch *ast.IfStmt
 		ast.Inspect(fd.Body, func(z ast.Node) bool {
 			ifs, ok := z.(*ast.IfStmt)
@@ -2097,7 +2102,10 @@ func (c *Ctx) r0920(pk *packages.Package, rule string) {
 				return true
 			}
 			cs := nospace(str(ifs.Cond))
-			if strings.HasPrefix(cs, "c=="+br.lit) || strings.Contains(cs, "&&c=="+br.lit) || strings.HasPrefix(cs, br.lit+"==c") {
+			if br.name != "octal" && (strings.HasPrefix(cs, "c=="+br.lit) || strings.Contains(cs, "&&c=="+br.lit) || strings.HasPrefix(cs, br.lit+"==c")) {
+				branch = ifs
+			}
+			if br.name == "octal" && (cs == "'0'<=c&&c<='7'" || cs == "c>='0'&&c<='7'") {
 				branch = ifs
 			}
 			return true
@@ -2108,6 +2116,38 @@ func (c *Ctx) r0920(pk *packages.Package, rule string) {
 			continue
 		}
 		guard := callsRecogniser(branch.Cond) || callsRecogniser(branch.Body)
-		c.R.Check(guard, rule, construct, c.pos(branch), "the branch consults the end tag recogniser", "a "+br.name+" escape is decoded without looking at what follows: `a=\""+br.name+"3C/script>\"` (written that way to keep the string out of the HTML parser's sight) is printed as `a=\"</script>\"`")
+		c.R.Check(guard, rule, construct, c.pos(branch), "the branch consults the end tag recogniser", "a "+br.name+" escape is decoded without looking at what follows: `a=\"\\x3C/script>\"`, `a=\"\\74/script>\"` (written that way to keep the string out of the HTML parser's sight) is printed as `a=\"</script>\"`")
+		// (d) … and what it consults also knows `<!--`
+		comment := false
+		for _, part := range []ast.Node{branch.Cond, branch.Body} {
+			ast.Inspect(part, func(z ast.Node) bool {
+				ce, ok := z.(*ast.CallExpr)
+				if !ok {
+					return true
+				}
+				if fo, _ := callee(info, ce).(*types.Func); fo != nil && fo.Pkg() == pk.Types {
+					if d := load.Func(pk, fo.Name()); d != nil && d.Body != nil && isRecogniser(d) {
+						chars, strs, _ := c.constsIn(pk, d.Body)
+						if chars['!'] && chars['-'] {
+							comment = true
+						}
+						for t := range strs {
+							if strings.Contains(t, "!--") {
+								comment = true
+							}
+						}
+					}
+				}
+				return true
+			})
+		}
+		c.R.Check(comment, rule, "js.replaceEscapes/"+br.name+" escape not decoded into the `<` of `<!--`", c.pos(branch), "the recogniser the branch consults compares with `!--`", "a "+br.name+" escape is decoded into a `<` in front of `!--`: `x='\\x3C!--\\x3Cscript>'` is printed as `x=\"<!--<script>\"`; inside a script element that puts the HTML tokenizer into the double-escaped state, in which the next `</script>` does not end the element")
+	}
+	// (c) the routine that strips backslashes from regular expressions
+	if rd := load.Func(pk, "minifyRegExp"); rd == nil || rd.Body == nil {
+		c.R.Unres(rule, "js.minifyRegExp/escaped slash of an end tag kept", c.pos(fd), "minifyRegExp not found")
+	} else {
+		c.R.Check(callsRecogniser(rd.Body), rule, "js.minifyRegExp/escaped slash of an end tag kept", c.pos(rd), "the routine consults the end tag recogniser", "minifyRegExp strips the backslash of `\\/` inside a character class without looking at what surrounds it: `x=/[<\\/script>]/` is printed as `x=/[</script>]/`, which ends the script element")
+
 	}
 }
